@@ -26,6 +26,42 @@ def regenerate(ctx: Ctx | None = None) -> dict:
     return _state['data']
 
 
+def cache_off_diff() -> list[tuple[str, str, str]]:
+    """The whole extraction (tables, rule rows, closure / read tables, identity closers, trunk, frame rules of every logic) is
+    repeated in a fresh process with ITEM_CACHE_SIZE=0 — every lexical item is then built anew on each construction, so
+    equal items are no longer the same object — and compared with the default extraction.  Returns the differing
+    (logic, field, detail).  Code that decides anything by object identity of sentences / parameters shows up here."""
+    if 'cache_off' not in _state:
+        import os, subprocess, tempfile
+        data = regenerate()
+        with tempfile.NamedTemporaryFile('r', suffix='.json', delete=False) as tf:
+            out = tf.name
+        code = ("import json,sys;sys.path.insert(0,%r);from harness.extract import gen;"
+                "json.dump(gen.extract_all(),open(sys.argv[1],'w'),default=str)" % str(common.ROOT))
+        p = subprocess.run([common.PY, '-c', code, out], capture_output=True, text=True, cwd=str(common.ROOT), timeout=1800,
+                           env=dict(os.environ, ITEM_CACHE_SIZE='0', PYTABLEAUX_VERIF='1'))
+        diff = []
+        try:
+            if p.returncode != 0:
+                raise common.InfraError('cache-off extraction failed: ' + p.stderr[-800:])
+            off = json.loads(open(out).read())
+            norm = lambda x: json.dumps(json.loads(json.dumps(x, default=str)), sort_keys=True)
+            for n in sorted(data):
+                if n not in off:
+                    diff.append((n, 'missing', 'logic not extracted with the cache off'))
+                    continue
+                for k in sorted(data[n]):
+                    if norm(data[n][k]) != norm(off[n].get(k)):
+                        diff.append((n, k, f'default: {norm(data[n][k])[:300]} | cache off: {norm(off[n].get(k))[:300]}'))
+        finally:
+            try:
+                os.unlink(out)
+            except OSError:
+                pass
+        _state['cache_off'] = diff
+    return _state['cache_off']
+
+
 def report_lines() -> list[list[str]]:
     """precheck: every failing row, computed by the Lean definitions the obligations evaluate"""
     if 'report' not in _state:
